@@ -220,3 +220,128 @@ pub fn stage_dump(test_cases: &[String], bits: u32, min_rep: u32, min_len: u32) 
         output,
     }
 }
+
+// ---------------------------------------------------------------------------------------------
+// Unit level: `union` / `concatenate` / `Display` on operands given by the harness.
+//
+// term     := 'L' '[' [grapheme ('_' grapheme)*] ']' | 'U' term term | 'N' term term
+// grapheme := chars '~' min '~' max ['{' grapheme (';' grapheme)* '}']      (as written by dump_grapheme)
+// chars    := hexstr (',' hexstr)*        hexstr := '-' | hex ('.' hex)*
+
+fn unhex_str(s: &str) -> Option<String> {
+    if s == "-" {
+        return Some(String::new());
+    }
+    s.split('.')
+        .map(|h| u32::from_str_radix(h, 16).ok().and_then(char::from_u32))
+        .collect()
+}
+
+struct TermParser<'s> {
+    s: &'s [u8],
+    i: usize,
+}
+
+impl TermParser<'_> {
+    fn peek(&self) -> Option<u8> {
+        self.s.get(self.i).copied()
+    }
+    fn eat(&mut self, c: u8) -> Option<()> {
+        if self.peek()? == c {
+            self.i += 1;
+            Some(())
+        } else {
+            None
+        }
+    }
+    fn take_while(&mut self, f: impl Fn(u8) -> bool) -> &str {
+        let start = self.i;
+        while self.i < self.s.len() && f(self.s[self.i]) {
+            self.i += 1;
+        }
+        std::str::from_utf8(&self.s[start..self.i]).unwrap_or("")
+    }
+    fn grapheme(&mut self, config: &RegExpConfig) -> Option<Grapheme> {
+        let chars_text = self.take_while(|c| c != b'~').to_string();
+        let chars: Vec<String> = chars_text.split(',').map(unhex_str).collect::<Option<Vec<_>>>()?;
+        self.eat(b'~')?;
+        let min: u32 = self.take_while(|c| c.is_ascii_digit()).parse().ok()?;
+        self.eat(b'~')?;
+        let max: u32 = self.take_while(|c| c.is_ascii_digit()).parse().ok()?;
+        let mut g = Grapheme::new(
+            chars,
+            min,
+            max,
+            config.is_capturing_group_enabled,
+            config.is_output_colorized,
+            config.is_verbose_mode_enabled,
+        );
+        if self.peek() == Some(b'{') {
+            self.i += 1;
+            loop {
+                let inner = self.grapheme(config)?;
+                g.repetitions.push(inner);
+                match self.peek()? {
+                    b';' => self.i += 1,
+                    b'}' => {
+                        self.i += 1;
+                        break;
+                    }
+                    _ => return None,
+                }
+            }
+        }
+        Some(g)
+    }
+    fn term<'c>(&mut self, config: &'c RegExpConfig) -> Option<Option<Expression<'c>>> {
+        match self.peek()? {
+            b'L' => {
+                self.i += 1;
+                self.eat(b'[')?;
+                let mut graphemes = vec![];
+                if self.peek()? != b']' {
+                    loop {
+                        graphemes.push(self.grapheme(config)?);
+                        match self.peek()? {
+                            b'_' => self.i += 1,
+                            b']' => break,
+                            _ => return None,
+                        }
+                    }
+                }
+                self.eat(b']')?;
+                let cluster = GraphemeCluster::from_graphemes(graphemes, config);
+                Some(Some(Expression::new_literal(cluster, config)))
+            }
+            b'U' => {
+                self.i += 1;
+                let a = self.term(config)?;
+                let b = self.term(config)?;
+                Some(Expression::verif_union(&a, &b, config))
+            }
+            b'N' => {
+                self.i += 1;
+                let a = self.term(config)?;
+                let b = self.term(config)?;
+                Some(Expression::verif_concatenate(&a, &b, config))
+            }
+            _ => None,
+        }
+    }
+}
+
+/// Evaluates a term with the library's own `union` / `concatenate` and prints the result with
+/// `Display for RegExp`.  `None`: the term does not parse; `Some(None)`: the operations returned `None`.
+pub fn eval_term(term: &str, bits: u32, min_rep: u32, min_len: u32) -> Option<Option<(String, String)>> {
+    let config = config_from_bits(bits, min_rep, min_len);
+    let mut p = TermParser { s: term.as_bytes(), i: 0 };
+    let result = p.term(&config)?;
+    if p.i != term.len() {
+        return None;
+    }
+    Some(result.map(|ast| {
+        let dump = dump_expr(&ast);
+        let text = RegExp::verif_with_ast(ast, &config).to_string();
+        (dump, text)
+    }))
+}
